@@ -50,6 +50,41 @@ def build(rng, seed, mode):
                     keys['udf_path'] = op['udf_path']
                 files['%s%d' % (tag, op['cid'])] = (keys, blobs.blob(op['cid'], op['length']))
     add(s, 'a')
+    if mode == 'reused':
+        # the object first holds image A (same paths, other contents), every file is read once
+        # through every name, then the object is closed and opens image B
+        import io as _io
+        opsA = [op for op in s.accepted if op['op'] == 'add_fp']
+        for keys, _c in files.values():
+            for k, pth in keys.items():
+                try:
+                    s.iso.get_file_from_iso_fp(_io.BytesIO(), **{k: pth})
+                except Exception:
+                    pass
+        s.write()
+        env.reset(seed + 1)
+        sb = driver.Session(cfg, seed + 1).new()
+        files.clear()
+        for op in opsA:
+            opb = dict(op, cid=op['cid'] + 50000, length=rng.choice(SIZES))
+            opb.pop('data', None)
+            if sb.step(opb).ok:
+                keys = {k: opb[k] for k in ('iso_path', 'joliet_path', 'udf_path') if opb.get(k)}
+                if cfg.rr and opb.get('iso_path'):
+                    keys['rr_path'] = sb.model.rr_path_of(opb['iso_path'])
+                files['r%d' % opb['cid']] = (keys, blobs.blob(opb['cid'], opb['length']))
+        img, oc = sb.write()
+        if not oc.ok:
+            return None, None, 'write failed: ' + oc.summary()
+        m = sb.model.clone()
+        m.reopened()
+        sb.close()
+        s2 = driver.Session(cfg, seed, model=m, reuse=s)
+        try:
+            s2.open_bytes(img.getvalue())
+        except Exception as e:
+            return None, None, 'open in the reused object failed: %s: %s' % (type(e).__name__, e)
+        return s2, files, None
     if mode in ('opened', 'mixed'):
         img, oc = s.write()
         if not oc.ok:
@@ -252,7 +287,7 @@ def summarize(r):
 def run_case(i, seed, tier):
     from harness.props import c01
     counters = {}
-    mode = ['opened', 'pending', 'mixed'][i % 3]
+    mode = ['opened', 'pending', 'mixed', 'opened', 'pending', 'mixed', 'reused'][i % 7]
     cs = seed * 1000003 + i
     vio, trace = run_program(cs, mode, counters)
     vio = c01.dedup(vio)
